@@ -230,6 +230,7 @@ def run(ctx):
         if 0 in at:
             sym2variant.setdefault(at[0], set()).add(v[2])
     variant2name = {}
+    order_ok = {}
     try:
         pps = Walker(PT, max_visits=2, max_paths=400000).paths()
     except Exception as e:
@@ -246,6 +247,13 @@ def run(ctx):
             vs = [v for c, v, bb in p.decisions if c[0] == "variant" and v in ("Plus", "Minus", "Multiply", "Divide")]
             if lit is not None and vs:
                 variant2name.setdefault(vs[-1], set()).add(lit[2].strip('"'))
+                a = strip(dict(g[3]).get("terms"))
+                good = a[0] == "vec" and len(a[1]) == 2
+                if good:
+                    l_, r_ = strip(a[1][0]), strip(a[1][1])
+                    good = l_[0] == "field" and r_[0] == "field" and l_[2] == "0" and r_[2] == "1" and l_[1] == r_[1] and \
+                        mentions(l_, lambda x: x[0] == "call" and x[1].endswith("get_left_and_right"))
+                order_ok[lit[2].strip('"')] = order_ok.get(lit[2].strip('"'), True) and good
     for sym, nm in sorted(SYMBOL.items()):
         vs = sym2variant.get(sym, set())
         names = set()
@@ -254,6 +262,10 @@ def run(ctx):
         ok = len(vs) == 1 and names == {nm} and nm in name2eval
         ctx.ob("R2", "chain(%s)" % sym, ok, ctx.where(PT), "`%s` -> Infix %s -> function %s -> %s" % (
             sym, sorted(vs), sorted(names), name2eval.get(nm, "?").split("::")[-1]))
+    for nm in sorted(WANT):
+        ctx.ob("R2", "operands(%s)" % nm, order_ok.get(nm) is True, ctx.where(PT),
+               "the infix form builds %s(left operand, right operand)" % nm if order_ok.get(nm) else
+               "the operands of the infix form are not passed in (left, right) order")
     # make_term's function prefixes
     prefixes = set()
     for bb, t in MT.calls():
